@@ -1,7 +1,128 @@
 import AmqModel.Model.ConnRun
-namespace AmqModel.Props.C11
-open AmqModel.Conn
+import AmqModel.Lemmas.Conn
+import AmqModel.Lemmas.ConnC11
+/-!
+# C11 — a consumer ends with exactly one terminal message and nothing after it
 
-theorem placeholder : (Conn.init 1 1).dead = false := rfl
+Property theorems only.  The reachable-state invariant about consumer queues (`Conn.InvC`), its
+preservation by every operation and the computation lemmas for the table of causes live in
+`AmqModel/Lemmas/ConnC11.lean`.  All four "over every history" theorems hold as stated; they do
+not even need the `ApiLegal` hypothesis (`invC_reachable` holds for every operation list).
+-/
+namespace AmqModel.Props.C11
+open AmqModel.Conn AmqModel.Collector
+
+def isTerminal : CMsg → Bool
+  | .delivery .. => false
+  | _ => true
+
+/-- Consumer queue `qid` is registered in some channel's consumer table. -/
+def InTable (c : Conn) (qid : Nat) : Prop :=
+  ∃ n slot tag, lookupN n c.slots = some slot ∧ (tag, qid) ∈ slot.consumers
+
+/-- The two definitions above are the ones the lemma file works with. -/
+theorem isTerminal_eq : isTerminal = CMsg.isTerm := by
+  funext m; cases m <;> rfl
+
+theorem inTable_iff (c : Conn) (qid : Nat) : InTable c qid ↔ Conn.InTable c qid := Iff.rfl
+
+/-! ### The table of causes: each removal sends exactly the message naming its cause -/
+
+/-- CancelOk (the server confirms the client's cancel): reply to the caller, then ClientCancelled
+    to the consumer, whose sender is dropped; the entry leaves the table. -/
+theorem cancel_ok_terminal (c : Conn) (n : Nat) (slot : Slot) (tag dc df : Bytes) (qid : Nat) (q : CQ)
+    (hs : c.st = .steady) (hn : n ≠ 0) (hslot : lookupN n c.slots = some slot)
+    (hc : lookupB tag slot.consumers = some qid) (hq : lookupN qid c.cqs = some q) (hrx : q.rxAlive = true)
+    (halive : (getLink c slot.lid).clientAlive = true) (hroom : (getLink c slot.lid).replies.length < 2) :
+    let r := process c (.method n 60 31 [.bytes tag]) dc df
+    r.2 = none ∧
+    lookupN qid r.1.cqs = some { q with msgs := q.msgs ++ [.clientCancelled], txAlive := false } ∧
+    (∃ s', lookupN n r.1.slots = some s' ∧ lookupB tag s'.consumers = none) ∧
+    (getLink r.1 slot.lid).replies = (getLink c slot.lid).replies ++ [.method 60 31 [.bytes tag]] :=
+  process_cancelOk_spec c n slot tag dc df qid q hs hn hslot hc hq hrx halive hroom
+
+/-- Server cancel: ServerCancelled to the consumer (sender dropped, entry removed), answered with
+    CancelOk on the wire unless the server said nowait. -/
+theorem server_cancel_terminal (c : Conn) (n : Nat) (slot : Slot) (tag dc df : Bytes) (nowait : Bool) (qid : Nat) (q : CQ)
+    (hs : c.st = .steady) (hn : n ≠ 0) (hslot : lookupN n c.slots = some slot)
+    (hc : lookupB tag slot.consumers = some qid) (hq : lookupN qid c.cqs = some q) (hrx : q.rxAlive = true) :
+    let r := process c (.method n 60 30 [.bytes tag, .bool nowait]) dc df
+    r.2 = none ∧
+    lookupN qid r.1.cqs = some { q with msgs := q.msgs ++ [.serverCancelled], txAlive := false } ∧
+    (∃ s', lookupN n r.1.slots = some s' ∧ lookupB tag s'.consumers = none) ∧
+    r.1.out = (if c.sealed || nowait then c.out else c.out ++ basicCancelOk n tag) :=
+  process_cancel_spec c n slot tag dc df nowait qid q hs hn hslot hc hq hrx
+
+/-- A server cancel for a tag nobody holds sends nothing to anybody (but is still answered). -/
+theorem server_cancel_unknown_tag (c : Conn) (n : Nat) (slot : Slot) (tag dc df : Bytes) (nowait : Bool)
+    (hs : c.st = .steady) (hn : n ≠ 0) (hslot : lookupN n c.slots = some slot)
+    (hc : lookupB tag slot.consumers = none) :
+    let r := process c (.method n 60 30 [.bytes tag, .bool nowait]) dc df
+    r.2 = none ∧ r.1.cqs = c.cqs ∧ r.1.out = (if c.sealed || nowait then c.out else c.out ++ basicCancelOk n tag) :=
+  process_cancel_unknown_spec c n slot tag dc df nowait hs hn hslot hc
+
+/-- Channel.CloseOk (the client closed the channel): every consumer of the channel receives
+    ClientClosedChannel as its last message. -/
+theorem chan_close_ok_terminal (c : Conn) (n : Nat) (fields : List Field) (dc df : Bytes) (slot : Slot)
+    (hs : c.st = .steady) (hn : n ≠ 0) (hslot : lookupN n c.slots = some slot)
+    (halive : (getLink c slot.lid).clientAlive = true) (hroom : (getLink c slot.lid).replies.length < 2)
+    (hcons : ∀ p ∈ slot.consumers, ∃ q, lookupN p.2 c.cqs = some q ∧ q.rxAlive = true)
+    (hnodup : (slot.consumers.map (·.2)).Nodup) :
+    (process c (.method n 20 41 fields) dc df).2 = none ∧
+    ∀ p ∈ slot.consumers, ∀ q, lookupN p.2 c.cqs = some q →
+      lookupN p.2 (process c (.method n 20 41 fields) dc df).1.cqs =
+        some { q with msgs := q.msgs ++ [.clientClosedChannel], txAlive := false } :=
+  process_closeOk_spec c n fields dc df slot hs hn hslot halive hroom hcons hnodup
+
+/-- The notification loop used by every close: each consumer in the list gets the message once,
+    at the end of its queue, and its sender is dropped. -/
+theorem notify_spec (msg : CMsg) (c : Conn) (consumers : List (Bytes × Nat))
+    (hcons : ∀ p ∈ consumers, ∃ q, lookupN p.2 c.cqs = some q ∧ q.rxAlive = true)
+    (hnodup : (consumers.map (·.2)).Nodup) :
+    (notifyConsumers msg c consumers).2 = none ∧
+    (∀ p ∈ consumers, ∀ q, lookupN p.2 c.cqs = some q →
+      lookupN p.2 (notifyConsumers msg c consumers).1.cqs = some { q with msgs := q.msgs ++ [msg], txAlive := false }) ∧
+    (∀ qid, qid ∉ consumers.map (·.2) → lookupN qid (notifyConsumers msg c consumers).1.cqs = lookupN qid c.cqs) :=
+  notifyConsumers_spec msg c consumers hcons hnodup
+
+/-- The client's cancel request itself (an opaque buffer to the I/O thread) removes nothing: until
+    CancelOk arrives deliveries for the tag are still delivered. -/
+theorem cancel_request_keeps_consumer (c : Conn) (n : Nat) (bytes : Bytes) :
+    (processChannelMessage c n (.send bytes)).1.slots = c.slots ∧
+    (processChannelMessage c n (.send bytes)).1.cqs = c.cqs :=
+  pcm_send_keeps c n bytes
+
+/-! ### Over every history -/
+
+-- The legality hypotheses `hl` / `ho` are part of the stated theorems but are not needed: the
+-- consumer invariant holds after every operation list.
+set_option linter.unusedVariables false
+
+/-- A consumer's sender is alive exactly while its entry is in a consumer table. -/
+theorem alive_iff_in_table (cm b : Nat) (ops : List Op) (hl : ∀ o ∈ ops, ApiLegal o) (qid : Nat) (q : CQ)
+    (hq : lookupN qid (run (init cm b) ops).cqs = some q) :
+    q.txAlive = true ↔ InTable (run (init cm b) ops) qid :=
+  (invC_reachable cm b ops).alive_iff hq
+
+/-- While the entry is in the table, no terminal message has been sent. -/
+theorem no_terminal_while_registered (cm b : Nat) (ops : List Op) (hl : ∀ o ∈ ops, ApiLegal o) (qid : Nat) (q : CQ)
+    (hq : lookupN qid (run (init cm b) ops).cqs = some q) (ha : q.txAlive = true) :
+    ∀ m ∈ q.msgs, isTerminal m = false := by
+  rw [isTerminal_eq]
+  exact (invC_reachable cm b ops).no_terminal hq ha
+
+/-- Once the sender is gone the queue holds at most one terminal message, and it is the last
+    message; nothing is ever added afterwards (messages only leave by being received). -/
+theorem at_most_one_terminal_and_last (cm b : Nat) (ops : List Op) (hl : ∀ o ∈ ops, ApiLegal o) (qid : Nat) (q : CQ)
+    (hq : lookupN qid (run (init cm b) ops).cqs = some q) :
+    ((q.msgs.filter isTerminal).length ≤ 1) ∧
+    (∀ pre m post, q.msgs = pre ++ m :: post → isTerminal m = true → post = []) := by
+  rw [isTerminal_eq]
+  exact (invC_reachable cm b ops).terminal_last hq
+
+theorem nothing_after_sender_dropped (cm b : Nat) (ops : List Op) (hl : ∀ o ∈ ops, ApiLegal o) (o : Op) (ho : ApiLegal o)
+    (qid : Nat) (q : CQ) (hq : lookupN qid (run (init cm b) ops).cqs = some q) (hd : q.txAlive = false) :
+    ∃ q', lookupN qid (step (run (init cm b) ops) o).cqs = some q' ∧ q'.txAlive = false ∧ ∃ k, q'.msgs = q.msgs.drop k :=
+  (invC_reachable cm b ops).dead_stays o hq hd
 
 end AmqModel.Props.C11
